@@ -113,6 +113,8 @@ class StubES(torch.nn.Module):
                 molecule.Etot = E + torch.where(on, molecule.cis_energies[torch.arange(nmol), idx], torch.zeros_like(E))
             Wd = torch.stack([torch.sin(0.21 * (torch.arange(nb, dtype=R.dtype).unsqueeze(0) + 3.0 * torch.arange(nb, dtype=R.dtype).unsqueeze(1)) + c) for c in (0.5, 1.5, 2.5)], 0)
             self._exc_dipole = torch.einsum("mij,cij->mc", T[:, 0], Wd)
+            molecule.transition_dipole = torch.einsum("msij,cij->msc", T, Wd)
+            molecule.oscillator_strength = (2.0 / 3.0) * molecule.cis_energies * (molecule.transition_dipole**2).sum(-1)
         else:
             self._exc_dipole = None
         molecule.e_gap = torch.ones(nmol, dtype=R.dtype)
